@@ -40,16 +40,41 @@ def gen_prog(rng: random.Random, *, crash: float = 0.08) -> dict[str, Any]:
                 beh = {"ends": rng.choice([0, 1, 3, 6, 9]), "exc": None}
             else:
                 beh = {"until": rng.choice([0, 0, 1, 2, 3])}
+                if rng.random() < crash:
+                    beh["excOnCancel"] = rng.randrange(3)       # its clean-up after a cancellation raises
             if "ends" in beh and rng.random() < crash:
                 beh["exc"] = rng.randrange(3)
             prog.append({"op": "start", "tid": n_task, "action": action, "beh": beh, "from_nested": rng.random() < 0.3,
                          "close_ticks": rng.choice([0, 0, 1, 2])})
+            if rng.random() < 0.2:
+                n_cb += 1
+                prog[-1]["pre_reg"] = 100 + n_cb        # registered by the task itself before task_status.started()
+    if any(st["op"] == "start" and st["beh"].get("exc") is not None for st in prog):
+        # once a task has crashed the rest is cancelled by the task group; what anyio does with the exception of a
+        # task that is cancelled while it is still being started is outside the statement: no second source of
+        # exceptions in crash programs
+        for st in prog:
+            if st["op"] == "start":
+                st["beh"].pop("excOnCancel", None)
     return {"kind": "tasks", "prog": prog, "exit_at": rng.choice([0, 1, 2, 4, 7]), "nested": rng.random() < 0.4,
             "via_component": rng.random() < 0.3}
 
 
+def expand(prog: list[dict[str, Any]]) -> list[dict[str, Any]]:
+    """A service task that registers a teardown callback on its owner before reporting that it has started:
+    for the owner's teardown stack that is a registration followed by the start."""
+    out = []
+    for st in prog:
+        if st["op"] == "start" and st.get("pre_reg") is not None:
+            out.append({"op": "reg", "id": st["pre_reg"], "raises": None})
+        out.append(st)
+    return out
+
+
 class C08(Prop):
     id = "C08"
+    kinds = ("tasks",)
+    crash = 0.08
     quick_cases = 500
     thorough_cases = 20000
     rule = ("0-4 service tasks interleaved with 0-6 teardown callbacks (direct / add_resource(teardown_callback=), sync / "
@@ -63,7 +88,7 @@ class C08(Prop):
                    "surfaces' is required then"]
 
     def generate(self, rng: random.Random, tier: str, index: int) -> dict[str, Any]:
-        case = gen_prog(rng)
+        case = gen_prog(rng, crash=self.crash)
         case["backend"] = ("asyncio", "trio")[index % 2]
         return case
 
@@ -73,7 +98,8 @@ class C08(Prop):
         return run_tasks_case(case)
 
     def model_request(self, case, impl):
-        return {"kind": "tasks", "prog": case["prog"], "trace": [e["l"] for e in impl["trace"]]}
+        return {"kind": "tasks", "prog": expand(case["prog"]),
+                "trace": [e["l"] for e in impl["trace"] if e["l"][0] != "probeFailed"]}
 
     def compare(self, case, impl, model):
         if impl["hang"]:
@@ -91,8 +117,11 @@ class C08(Prop):
 
     def monitor(self, case, impl):
         fails = []
-        labels = [e["l"] for e in impl["trace"]]
-        prog = case["prog"]
+        labels = [e["l"] for e in impl["trace"] if e["l"][0] != "probeFailed"]
+        prog = expand(case["prog"])
+        for e in impl["trace"]:
+            if e["l"][0] == "probeFailed":
+                fails.append(f"task {e['l'][1]}: {e['l'][2]}")
         crashed = any(l[0] == "taskEnded" and l[2] is not None for l in labels)
         out = next((l[1] for l in labels if l[0] == "outcome"), None)
         if impl["hang"]:
